@@ -236,14 +236,27 @@ impl Monitor for C13 {
             }
         }
         // Consequence: at equal prices, init-healthy implies maint-healthy (real pulse_health on a fork)
-        if s.is_fork || !(judged_config || {
+        // - for every indebted account after a configuration change and every 16th transaction,
+        // - for the acting account right after it took on risk (it then sits near its init limit).
+        let risk_takers: Vec<Pubkey> = s
+            .tx
+            .ixs
+            .iter()
+            .filter(|ix| ix.program_id == marginfi_id() && matches!(ix.tag, "borrow" | "withdraw"))
+            .filter_map(super::ix_user_account)
+            .collect();
+        let everyone = judged_config || {
             self.counter += 1;
             self.counter % 16 == 0
-        }) {
+        };
+        if s.is_fork || !(everyone || !risk_takers.is_empty()) {
             return;
         }
         let eq = equalise_prices(s.post, s.clock.unix_timestamp);
         for (k, acc) in model::all_accounts(&eq) {
+            if !everyone && !risk_takers.contains(&k) {
+                continue;
+            }
             let has_liab = acc.lending_account.balances.iter().any(|b| b.active != 0 && q_w(b.liability_shares) >= qi(1));
             if !has_liab {
                 continue;
